@@ -4,9 +4,13 @@ import (
 	"encoding/json"
 	"fmt"
 	"os"
+	"os/exec"
 	"path/filepath"
+	"regexp"
 	"sort"
+	"strconv"
 	"strings"
+	"time"
 )
 
 type violation struct {
@@ -35,6 +39,7 @@ type Report struct {
 	solverT  float64
 	maxT     float64
 	knownOut []string
+	bounded  []map[string]interface{}
 }
 
 func newReport(v *Verifier, prop, tier string, seed int, pc *PropConfig) *Report {
@@ -340,4 +345,56 @@ func round2(x float64) float64 { return float64(int(x*100+0.5)) / 100 }
 
 func (o *Obligation) smtBytes() int {
 	return o.smtSize
+}
+
+// runBounded runs the bounded stand-ins registered for the property (never counted as proved).
+func (r *Report) runBounded(dir string) {
+	for _, b := range r.pc.Bounded {
+		bound := b.BoundQuick
+		if r.tier == "thorough" {
+			bound = b.BoundThorough
+		}
+		pkgDir := filepath.Join(r.v.repo, b.Pkg)
+		ov := map[string]map[string]string{"Replace": {filepath.Join(pkgDir, "zz_verif_bounded_test.go"): filepath.Join(r.v.verif, b.File)}}
+		ob, _ := json.Marshal(ov)
+		ovf := filepath.Join(dir, "bounded_"+san(b.Name)+".json")
+		os.WriteFile(ovf, ob, 0o644)
+		cmd := exec.Command("go", "test", "-overlay", ovf, "-v", "-vet=off", "-count=1", "-timeout", "1500s", "-run", "^"+b.Run+"$", ".")
+		cmd.Dir = pkgDir
+		cmd.Env = append(os.Environ(), "GOFLAGS=-mod=mod", "GOPROXY=off", "GOSUMDB=off", "GOTOOLCHAIN=local", "GOWORK=off", fmt.Sprintf("VERIF_BOUND=%d", bound), fmt.Sprintf("VERIF_SEED=%d", r.seed))
+		t0 := time.Now()
+		o, _ := cmd.CombinedOutput()
+		secs := time.Since(t0).Seconds()
+		m := regexp.MustCompile(`VERIF-BOUNDED name=(\S+) bound=(\d+) cases=(\d+) failures=(\d+) first=(.*)`).FindStringSubmatch(string(o))
+		rec := map[string]interface{}{"name": b.Name, "what": b.What, "bound": bound, "label": "bounded (not a proof)", "wall_s": round2(secs)}
+		if m == nil {
+			txt := string(o)
+			if len(txt) > 3000 {
+				txt = txt[len(txt)-3000:]
+			}
+			if strings.Contains(txt, "panic:") || strings.Contains(txt, "--- FAIL") {
+				// the real function crashed inside the harness: that is a failing input
+				vi := &violation{name: "bounded:" + b.Name, reason: "bounded harness crashed on the real code", confirmed: true, detail: txt}
+				vi.replay = r.writeReplayFile(vi, "")
+				r.viol = append(r.viol, vi)
+				rec["result"] = "crash"
+			} else {
+				r.broken = append(r.broken, "bounded harness "+b.Name+" did not run: "+txt)
+				rec["result"] = "not run"
+			}
+			r.bounded = append(r.bounded, rec)
+			continue
+		}
+		cases, _ := strconv.Atoi(m[3])
+		fails, _ := strconv.Atoi(m[4])
+		rec["cases"] = cases
+		rec["failures"] = fails
+		r.bounded = append(r.bounded, rec)
+		if fails > 0 {
+			vi := &violation{name: "bounded:" + b.Name, reason: fmt.Sprintf("%d of %d cases of the bounded check fail on the real code", fails, cases), confirmed: true,
+				detail: "first failing input (run on the real code by the harness " + b.File + "):\n" + m[5] + "\n"}
+			vi.replay = r.writeReplayFile(vi, "")
+			r.viol = append(r.viol, vi)
+		}
+	}
 }
